@@ -134,6 +134,11 @@ func laws04(c case04, domain string) []law04 {
 	if err != nil {
 		return out
 	}
+	// ---- directive hygiene: "$patch" is consumed by the merge, it never reaches the output ----
+	if domain != "Dnull" && hasDirectiveKey(j1) {
+		out = append(out, law04{"hygiene", "C04/hygiene/directive-key-in-output",
+			fmt.Sprintf("a \"$patch\" key is left in the result: %s", jsonText(j1))})
+	}
 	// ---- idempotence: merge(p, merge(p, t)) == merge(p, t), fresh copy of the patch ----
 	if domain != "Dnull" {
 		p2, err := kyaml.Parse(c.Patch)
@@ -158,25 +163,23 @@ func laws04(c case04, domain string) []law04 {
 		}
 	}
 	// ---- reference: merge(p, t) ~ k8s strategicpatch(p, t), up to the order of keyed-list elements ----
-	if domain != "Dnull" && !c.Infer && (c.RefDom || domain == "") {
+	if domain != "Dnull" && !c.Infer && (c.RefDom || domain == "" || domain == "A") {
 		if v := reference04(c, j1); v != nil {
-			out = append(out, *v)
+			// outside D the reference may simply be stricter (it rejects what kustomize accepts): not a law failure
+			if !(domain == "A" && strings.HasPrefix(v.Class, "C04/reference/reference-rejects:")) {
+				out = append(out, *v)
+			}
 		}
 	}
 	// ---- frame: what the patch does not mention is unchanged ----
 	t0, err1 := kyaml.Parse(c.Target)
 	p0, err2 := kyaml.Parse(c.Patch)
-	if err1 == nil && err2 == nil {
+	if err1 == nil && err2 == nil && domain != "A" {
 		jt, e1 := toJSONValue(t0)
 		jp, e2 := toJSONValue(p0)
 		if e1 == nil && e2 == nil {
-			var rs *openapi.ResourceSchema
-			if !c.Infer || true {
-				m, _ := t0.GetMeta()
-				if m.Kind != "" && m.APIVersion != "" {
-					rs = openapi.SchemaForResourceType(kyaml.TypeMeta{Kind: m.Kind, APIVersion: m.APIVersion})
-				}
-			}
+			// the schema the walker uses: first source (target, then patch) whose kind/apiVersion is known
+			rs, _, _ := resolveSchema(t0, p0)
 			frame04(jt, jp, j1, rs, "", func(shape, path, detail string) {
 				out = append(out, law04{"frame", "C04/frame/" + shape,
 					fmt.Sprintf("path %s: %s; result %s", path, detail, jsonText(j1))})
@@ -515,13 +518,17 @@ func reference04(c case04, j1 interface{}) *law04 {
 	if err1 != nil || err2 != nil {
 		return nil
 	}
-	m, _ := t0.GetMeta()
+	rsRef, refKind, refAv := resolveSchema(t0, p0)
+	if rsRef == nil {
+		m, _ := t0.GetMeta()
+		refKind, refAv = m.Kind, m.APIVersion
+	}
 	tj, e1 := t0.MarshalJSON()
 	pj, e2 := p0.MarshalJSON()
 	if e1 != nil || e2 != nil {
 		return nil
 	}
-	refOut, err := k8sSMP(m.Kind, m.APIVersion, tj, pj)
+	refOut, err := k8sSMP(refKind, refAv, tj, pj)
 	if err != nil {
 		return &law04{"reference", "C04/reference/reference-rejects:" + refErrShape(err.Error()),
 			fmt.Sprintf("reference implementation fails (%v) where kustomize gives %s", err, jsonText(j1))}
@@ -530,7 +537,7 @@ func reference04(c case04, j1 interface{}) *law04 {
 	if err := json.Unmarshal(refOut, &jr); err != nil {
 		return nil
 	}
-	rs := openapi.SchemaForResourceType(kyaml.TypeMeta{Kind: m.Kind, APIVersion: m.APIVersion})
+	rs := rsRef
 	a, b := canonLists(j1, rs), canonLists(jr, rs)
 	if reflect.DeepEqual(a, b) {
 		return nil
